@@ -39,6 +39,43 @@ def registry():
     return reg
 
 
+def pruned_edges(ctx):
+    """number of CFG edges removed by the known-variant / exhaustive-switch pre-pass in the workspace crates"""
+    n = 0
+    for fn in ctx.prog.fns.values():
+        if fn.has_body and fn.crate in ('maybenot', 'maybenot_simulator', 'maybenot_ffi'):
+            n += len(ctx.an.get(fn).cfg.pruned)
+    return n
+
+
+def thorough(a, reg, rep):
+    """second configuration (default features) must agree; mutant self-test of the rules (informational)"""
+    from . import selftest
+    if a.facts_default:
+        sub = Report(a.pid, 'thorough-default-features')
+        try:
+            prog2 = Program(a.facts_default)
+            ctx2 = Ctx(prog2, 'quick', a.facts_default, {'repo': a.repo})
+            reg[a.pid](ctx2, sub)
+        except AnchorMissing as e:
+            # the v1 parser only exists with the `parsing` feature: its anchors may be absent here
+            sub.ob(a.pid + '.anchor', '<anchor>', 'default-features:' + str(e), 'parse_v1' in str(e) or 'parsing' in str(e), str(e))
+        bad = [o for o in sub.obligations if not o['ok']]
+        known = {o['key'] for o in rep.obligations if not o['ok']}
+        for o in bad:
+            if o['key'] in known:
+                continue
+            rep.ob(o['rule'], o['fn'], 'default-features:' + o['construct'], False, '[build without the parsing feature] ' + o['detail'], site=o['site'])
+        rep.extra['default_feature_config'] = {'obligations': len(sub.obligations), 'violations': len(bad)}
+    res = selftest.run(a.pid, a.repo)
+    rep.extra['mutant_selftest'] = {'catalogue': len(res), 'detected': sum(1 for r in res if r[1] == 'detected'),
+                                    'missed': [r[0] for r in res if r[1] == 'MISSED'], 'skipped': [r[0] for r in res if r[1] == 'skipped'],
+                                    'details': [{'mutant': r[0], 'result': r[1], 'note': r[2]} for r in res]}
+    for r in res:
+        if r[1] == 'MISSED':
+            print('SELFTEST-WARNING: property=%s mutant %s is no longer detected by this check (informational)' % (a.pid, r[0]))
+
+
 def main():
     ap = argparse.ArgumentParser()
     ap.add_argument('pid')
@@ -58,6 +95,12 @@ def main():
         prog = Program(a.facts)
         ctx = Ctx(prog, a.tier, a.facts, {'facts_default': a.facts_default, 'fixtures': a.fixtures, 'repo': a.repo})
         expl = reg[a.pid](ctx, rep)
+        npr = pruned_edges(ctx)
+        rep.extra['pruned_infeasible_edges'] = npr
+        rep.rule('engine.P0', 'the CFG pre-pass that removes impossible edges (`Err(..)?` with a literal Err, exhaustive discriminant switches) recognised its idioms: a drift in rustc naming would otherwise surface as spurious paths')
+        rep.count_floor('engine.P0', 'infeasible edges pruned in the workspace crates', npr, 300)
+        if a.tier == 'thorough':
+            thorough(a, reg, rep)
     except AnchorMissing as e:
         rep.fail_closed(a.pid + '.anchor', str(e))
         expl = 'anchor missing: ' + str(e)
